@@ -234,6 +234,7 @@ def step (s : Sess) (toks : List String) : Sess × String :=
   | ["dump"] => (s, dumpWorld s)
   | ["warnings"] => (s, toString s.w.warnings)
   | ["collisions"] => (s, toString s.w.collisions)
+  | ["identkeys"] => ({ s with w := { s.w with identKeys := true } }, "ok")
   | _ => bad
 
 end Qco.Driver
